@@ -158,7 +158,7 @@ func runConcurrent(it *Interp, cc *concCase) (sig, msg string) {
 	if b.W.IsLocked() {
 		return "concurrent|lock|still-locked", "world still locked after all goroutines finished"
 	}
-	if p := try(func() { b.W.NewEntity() }); p != nil {
+	if p := try(func() { b.W.RemoveEntity(b.W.NewEntity()) }); p != nil {
 		return "concurrent|lock|structural-op-fails", fmt.Sprint("NewEntity after the concurrent phase panicked: ", p)
 	}
 	return "", ""
@@ -270,6 +270,24 @@ func TestC13(t *testing.T) {
 			_ = os.WriteFile(pending+".pending", b, 0o644)
 		}
 		sig, msg := runConcurrent(it, cc)
+		// the first concurrent use of a filter is the delicate moment (its hint is computed then): repeat the scenario
+		// with fresh filter objects, so that every repetition is a first use again
+		for rep := 0; rep < 3 && sig == ""; rep++ {
+			for fi := range users {
+				if f := it.M.Filters[fi]; f.Inst >= 0 && !f.Registered && !f.Stale {
+					ok := true
+					for _, r := range f.Rels {
+						if !it.M.targetOK(r.T) {
+							ok = false // a filter can only be built while its fixed targets are alive
+						}
+					}
+					if ok {
+						it.B[0].flt[fi] = it.B[0].buildFilter(f)
+					}
+				}
+			}
+			sig, msg = runConcurrent(it, cc)
+		}
 		if sig != "" {
 			cc.Sig, cc.Failure = sig, msg
 			st.Failed = true
@@ -309,7 +327,7 @@ func TestC13(t *testing.T) {
 	}
 }
 
-// TestReplayC13 re-executes a saved concurrent case 30 times (schedules vary; the race detector is the sensor).
+// TestReplayC13 re-executes a saved concurrent case 100 times (schedules vary; the race detector is the sensor).
 func TestReplayC13(t *testing.T) {
 	path := os.Getenv("VERIF_REPLAY")
 	if path == "" {
@@ -323,7 +341,7 @@ func TestReplayC13(t *testing.T) {
 	if err := json.Unmarshal(b, cc); err != nil {
 		t.Fatal(err)
 	}
-	for i := 0; i < 30; i++ {
+	for i := 0; i < 100; i++ {
 		it := buildWorld(cc.Cfg, cc.Ops)
 		if sig, msg := runConcurrent(it, cc); sig != "" {
 			t.Fatalf("REPLAY-VIOLATION property=C13 sig=%s\n%s", sig, msg)
